@@ -2,9 +2,10 @@
 C08 — any docstring in any format is rendered; markup errors degrade to plain text.
 
 Theorems over `PdModel.Docstring`, the model of the wrapper logic of epydoc2stan.py /
-markup/__init__.py around the markup parsers.  Every statement quantifies over ALL behaviours of
-the parameters (`Env`: parser, processtypes step, to_stan, to_node, summary walk, toc builder),
-all states and all objects, unless a hypothesis says otherwise.
+markup/__init__.py / templatewriter around the markup parsers.  Every statement quantifies over ALL
+behaviours of the parameters (`Env`: parser, processtypes step, to_stan, to_node, summary walk, toc
+builder, colorizer results, signature formatter), all states and all objects, unless a hypothesis
+says otherwise.
 -/
 import PdModel.Docstring
 
@@ -16,6 +17,8 @@ namespace Docstring
 @[simp] theorem setParsed_reports (st : St) (o : Obj) (pd : PD) : (setParsed st o pd).reports = st.reports := rfl
 @[simp] theorem setSummary_errors (st : St) (o : Obj) (pd : PD) : (setSummary st o pd).errors = st.errors := rfl
 @[simp] theorem setSummary_reports (st : St) (o : Obj) (pd : PD) : (setSummary st o pd).reports = st.reports := rfl
+@[simp] theorem setPType_errors (st : St) (o : Obj) (b : Body) : (setPType st o b).errors = st.errors := rfl
+@[simp] theorem setPType_reports (st : St) (o : Obj) (b : Body) : (setPType st o b).reports = st.reports := rfl
 
 @[simp] theorem setParsed_self (st : St) (o : Obj) (pd : PD) :
     ((setParsed st o pd).objs o).parsed = some pd := by simp [setParsed]
@@ -24,6 +27,9 @@ namespace Docstring
   simp only [setParsed]; split <;> simp_all
 @[simp] theorem setParsed_summary (st : St) (o x : Obj) (pd : PD) :
     ((setParsed st o pd).objs x).parsedSummary = (st.objs x).parsedSummary := by
+  simp only [setParsed]; split <;> simp_all
+@[simp] theorem setParsed_ptype (st : St) (o x : Obj) (pd : PD) :
+    ((setParsed st o pd).objs x).ptype = (st.objs x).ptype := by
   simp only [setParsed]; split <;> simp_all
 theorem setParsed_ne (st : St) (o x : Obj) (pd : PD) (h : x ≠ o) :
     (setParsed st o pd).objs x = st.objs x := by simp [setParsed, h]
@@ -36,8 +42,25 @@ theorem setParsed_ne (st : St) (o x : Obj) (pd : PD) (h : x ≠ o) :
 @[simp] theorem setSummary_parsed (st : St) (o x : Obj) (pd : PD) :
     ((setSummary st o pd).objs x).parsed = (st.objs x).parsed := by
   simp only [setSummary]; split <;> simp_all
+@[simp] theorem setSummary_ptype (st : St) (o x : Obj) (pd : PD) :
+    ((setSummary st o pd).objs x).ptype = (st.objs x).ptype := by
+  simp only [setSummary]; split <;> simp_all
 theorem setSummary_ne (st : St) (o x : Obj) (pd : PD) (h : x ≠ o) :
     (setSummary st o pd).objs x = st.objs x := by simp [setSummary, h]
+
+@[simp] theorem setPType_self (st : St) (o : Obj) (b : Body) :
+    ((setPType st o b).objs o).ptype = some b := by simp [setPType]
+@[simp] theorem setPType_docstring (st : St) (o x : Obj) (b : Body) :
+    ((setPType st o b).objs x).docstring = (st.objs x).docstring := by
+  simp only [setPType]; split <;> simp_all
+@[simp] theorem setPType_parsed (st : St) (o x : Obj) (b : Body) :
+    ((setPType st o b).objs x).parsed = (st.objs x).parsed := by
+  simp only [setPType]; split <;> simp_all
+@[simp] theorem setPType_summary (st : St) (o x : Obj) (b : Body) :
+    ((setPType st o b).objs x).parsedSummary = (st.objs x).parsedSummary := by
+  simp only [setPType]; split <;> simp_all
+theorem setPType_ne (st : St) (o x : Obj) (b : Body) (h : x ≠ o) :
+    (setPType st o b).objs x = st.objs x := by simp [setPType, h]
 
 @[simp] theorem reportErrors_objs (st : St) (o : Obj) (errs : List Err) (sec : Sec) :
     (reportErrors st o errs sec).objs = st.objs := by
@@ -65,25 +88,30 @@ theorem reportErrors_mem (st : St) (o : Obj) (errs : List Err) (sec : Sec) (h : 
   · rw [reportErrors_noop _ _ _ _ hc]; exact hc
   · rw [(reportErrors_fresh st o errs sec h hc).1]; simp
 
-/-! ## the frame invariant: what one entry-point call on `obj` (reporting against `src`) may change -/
+/-! ## the frame invariant: what one call may change
 
-structure Frame (obj src : Obj) (st st' : St) : Prop where
+`T` = the objects whose cached forms (`parsed_docstring`, `parsed_summary`, `parsed_type`) the call
+may write; `src`/`sec` = the one (object, section) pair the call may report against. -/
+
+structure Frame (T : Obj → Prop) (src : Obj) (sec : Sec) (st st' : St) : Prop where
   docstring : ∀ x, (st'.objs x).docstring = (st.objs x).docstring
-  parsed : ∀ x, x ≠ obj → (st'.objs x).parsed = (st.objs x).parsed
-  summary : ∀ x, x ≠ obj → x ≠ src → (st'.objs x).parsedSummary = (st.objs x).parsedSummary
+  parsed : ∀ x, ¬ T x → (st'.objs x).parsed = (st.objs x).parsed
+  summary : ∀ x, ¬ T x → x ≠ src → (st'.objs x).parsedSummary = (st.objs x).parsedSummary
+  ptype : ∀ x, ¬ T x → (st'.objs x).ptype = (st.objs x).ptype
   errors_mono : ∀ p ∈ st.errors, p ∈ st'.errors
-  errors_new : ∀ p ∈ st'.errors, p ∈ st.errors ∨ p = (0, src)
+  errors_new : ∀ p ∈ st'.errors, p ∈ st.errors ∨ p = (sec, src)
   reports : ∃ new, st'.reports = st.reports ++ new ∧
-      ∀ r ∈ new, r.obj = src ∧ r.sec = 0 ∧ (0, src) ∉ st.errors ∧ (0, src) ∈ st'.errors
+      ∀ r ∈ new, r.obj = src ∧ r.sec = sec ∧ (sec, src) ∉ st.errors ∧ (sec, src) ∈ st'.errors
 
-theorem Frame.refl (obj src : Obj) (st : St) : Frame obj src st st :=
-  ⟨fun _ => rfl, fun _ _ => rfl, fun _ _ _ => rfl, fun _ h => h, fun _ h => .inl h, ⟨[], by simp⟩⟩
+theorem Frame.refl (T : Obj → Prop) (src : Obj) (sec : Sec) (st : St) : Frame T src sec st st :=
+  ⟨fun _ => rfl, fun _ _ => rfl, fun _ _ _ => rfl, fun _ _ => rfl, fun _ h => h, fun _ h => .inl h, ⟨[], by simp⟩⟩
 
-theorem Frame.trans {obj src : Obj} {a b c : St} (h1 : Frame obj src a b) (h2 : Frame obj src b c) :
-    Frame obj src a c := by
+theorem Frame.trans {T : Obj → Prop} {src : Obj} {sec : Sec} {a b c : St}
+    (h1 : Frame T src sec a b) (h2 : Frame T src sec b c) : Frame T src sec a c := by
   refine ⟨fun x => (h2.docstring x).trans (h1.docstring x),
           fun x hx => (h2.parsed x hx).trans (h1.parsed x hx),
           fun x hx hs => (h2.summary x hx hs).trans (h1.summary x hx hs),
+          fun x hx => (h2.ptype x hx).trans (h1.ptype x hx),
           fun p hp => h2.errors_mono p (h1.errors_mono p hp), ?_, ?_⟩
   · intro p hp
     rcases h2.errors_new p hp with h | h
@@ -99,14 +127,19 @@ theorem Frame.trans {obj src : Obj} {a b c : St} (h1 : Frame obj src a b) (h2 : 
     · obtain ⟨x1, x2, x3, x4⟩ := p2 r h
       exact ⟨x1, x2, fun hc => x3 (h1.errors_mono _ hc), x4⟩
 
-theorem frame_reportErrors (obj src : Obj) (st : St) (errs : List Err) :
-    Frame obj src st (reportErrors st src errs 0) := by
+theorem Frame.mono {T T' : Obj → Prop} {src : Obj} {sec : Sec} {a b : St} (h : Frame T src sec a b)
+    (hT : ∀ x, T x → T' x) : Frame T' src sec a b :=
+  ⟨h.docstring, fun x hx => h.parsed x (fun c => hx (hT x c)), fun x hx hs => h.summary x (fun c => hx (hT x c)) hs,
+   fun x hx => h.ptype x (fun c => hx (hT x c)), h.errors_mono, h.errors_new, h.reports⟩
+
+theorem frame_reportErrors (T : Obj → Prop) (src : Obj) (sec : Sec) (st : St) (errs : List Err) :
+    Frame T src sec st (reportErrors st src errs sec) := by
   by_cases he : errs = []
-  · subst he; rw [reportErrors_nil]; exact Frame.refl _ _ _
-  by_cases hm : (0, src) ∈ st.errors
-  · rw [reportErrors_noop _ _ _ _ hm]; exact Frame.refl _ _ _
-  obtain ⟨e1, e2⟩ := reportErrors_fresh st src errs 0 he hm
-  refine ⟨by simp, by simp, by simp, ?_, ?_, ?_⟩
+  · subst he; rw [reportErrors_nil]; exact Frame.refl _ _ _ _
+  by_cases hm : (sec, src) ∈ st.errors
+  · rw [reportErrors_noop _ _ _ _ hm]; exact Frame.refl _ _ _ _
+  obtain ⟨e1, e2⟩ := reportErrors_fresh st src errs sec he hm
+  refine ⟨by simp, by simp, by simp, by simp, ?_, ?_, ?_⟩
   · intro p hp; rw [e1]; exact List.mem_append_left _ hp
   · intro p hp; rw [e1] at hp
     rcases List.mem_append.mp hp with h | h
@@ -117,25 +150,33 @@ theorem frame_reportErrors (obj src : Obj) (st : St) (errs : List Err) :
     obtain ⟨e, _, rfl⟩ := List.mem_map.mp hr
     exact ⟨rfl, rfl, hm, by rw [e1]; simp⟩
 
-theorem frame_setParsed (obj src : Obj) (st : St) (pd : PD) : Frame obj src st (setParsed st obj pd) :=
-  ⟨by simp, fun x hx => by rw [setParsed_ne _ _ _ _ hx], by simp, fun _ h => h, fun _ h => .inl h, ⟨[], by simp⟩⟩
+theorem frame_setParsed (T : Obj → Prop) (src : Obj) (sec : Sec) (st : St) (o : Obj) (pd : PD) (hT : T o) :
+    Frame T src sec st (setParsed st o pd) :=
+  ⟨by simp, fun x hx => by rw [setParsed_ne _ _ _ _ (fun c => by subst c; exact hx hT)], by simp, by simp,
+   fun _ h => h, fun _ h => .inl h, ⟨[], by simp⟩⟩
 
-theorem frame_setSummary_obj (obj src : Obj) (st : St) (pd : PD) : Frame obj src st (setSummary st obj pd) :=
-  ⟨by simp, by simp, fun x hx _ => by rw [setSummary_ne _ _ _ _ hx], fun _ h => h, fun _ h => .inl h, ⟨[], by simp⟩⟩
+theorem frame_setPType (T : Obj → Prop) (src : Obj) (sec : Sec) (st : St) (o : Obj) (b : Body) (hT : T o) :
+    Frame T src sec st (setPType st o b) :=
+  ⟨by simp, by simp, by simp, fun x hx => by rw [setPType_ne _ _ _ _ (fun c => by subst c; exact hx hT)],
+   fun _ h => h, fun _ h => .inl h, ⟨[], by simp⟩⟩
 
-theorem frame_setSummary_src (obj src : Obj) (st : St) (pd : PD) : Frame obj src st (setSummary st src pd) :=
-  ⟨by simp, by simp, fun x _ hx => by rw [setSummary_ne _ _ _ _ hx], fun _ h => h, fun _ h => .inl h, ⟨[], by simp⟩⟩
+theorem frame_setSummary (T : Obj → Prop) (src : Obj) (sec : Sec) (st : St) (o : Obj) (pd : PD)
+    (hT : T o ∨ o = src) : Frame T src sec st (setSummary st o pd) :=
+  ⟨by simp, by simp,
+   fun x hx hs => by
+     rw [setSummary_ne _ _ _ _ (fun c => by subst c; rcases hT with h | h; exact hx h; exact hs h)],
+   by simp, fun _ h => h, fun _ h => .inl h, ⟨[], by simp⟩⟩
 
-theorem Frame.of_eq {obj src : Obj} {st st' : St} (h1 : st'.objs = st.objs) (h2 : st'.errors = st.errors)
-    (h3 : st'.reports = st.reports) : Frame obj src st st' :=
-  ⟨fun x => by rw [h1], fun x _ => by rw [h1], fun x _ _ => by rw [h1], fun p hp => by rw [h2]; exact hp,
-   fun p hp => .inl (by rw [h2] at hp; exact hp), ⟨[], by simp [h3]⟩⟩
+theorem Frame.of_eq {T : Obj → Prop} {src : Obj} {sec : Sec} {st st' : St} (h1 : st'.objs = st.objs)
+    (h2 : st'.errors = st.errors) (h3 : st'.reports = st.reports) : Frame T src sec st st' :=
+  ⟨fun x => by rw [h1], fun x _ => by rw [h1], fun x _ _ => by rw [h1], fun x _ => by rw [h1],
+   fun p hp => by rw [h2]; exact hp, fun p hp => .inl (by rw [h2] at hp; exact hp), ⟨[], by simp [h3]⟩⟩
 
-theorem frame_parseDocstring (env : Env) (obj src : Obj) (st : St) (doc : Text) :
-    Frame obj src st (parseDocstring env st obj doc src).2 := by
+theorem frame_parseDocstring (T : Obj → Prop) (env : Env) (obj src : Obj) (st : St) (doc : Text) :
+    Frame T src 0 st (parseDocstring env st obj doc src).2 := by
   unfold parseDocstring
   refine Frame.trans (b := if getDocformat env src = Docformat.unknown then { st with importMsg := true } else st)
-    ?_ (frame_reportErrors _ _ _ _)
+    ?_ (frame_reportErrors _ _ _ _ _)
   split <;> exact Frame.of_eq rfl rfl rfl
 
 @[simp] theorem parseDocstring_objs (env : Env) (obj src : Obj) (st : St) (doc : Text) :
@@ -150,50 +191,60 @@ theorem ensureParsed_some (env : Env) (st : St) (obj src : Obj)
   cases hg : getDocstring st (obj :: env.inherited obj) <;> cases hp : (st.objs obj).parsed <;>
     simp_all [ensureParsed, sourceOf]
 
+/-- the objects a call on `obj` may write: `obj` itself -/
+def Only (obj : Obj) : Obj → Prop := fun x => x = obj
+
 theorem frame_ensureParsed (env : Env) (st : St) (obj : Obj) :
-    Frame obj (sourceOf env st obj) st (ensureParsed env st obj).2 := by
+    Frame (Only obj) (sourceOf env st obj) 0 st (ensureParsed env st obj).2 := by
   cases hg : getDocstring st (obj :: env.inherited obj) <;> cases hp : (st.objs obj).parsed <;>
     simp only [ensureParsed, sourceOf, hg, hp]
   case found.none =>
-    exact Frame.trans (frame_parseDocstring env obj _ st _) (frame_setParsed _ _ _ _)
-  all_goals exact Frame.refl _ _ _
+    exact Frame.trans (frame_parseDocstring _ env obj _ st _) (frame_setParsed _ _ _ _ _ _ rfl)
+  all_goals exact Frame.refl _ _ _ _
 
-theorem frame_safeToStanOut (obj src ctx : Obj) (st : St) (out : StanOut) (fb : Fallback) (report : Bool)
-    (sec : Sec) (hctx : ctx = src ∨ ctx = obj) (hrep : report = true → ctx = src ∧ sec = 0) :
-    Frame obj src st (safeToStanOut st out ctx fb report sec).2 := by
+theorem frame_safeToStanOut (T : Obj → Prop) (src ctx : Obj) (sec0 : Sec) (st : St) (out : StanOut) (fb : Fallback)
+    (report : Bool) (sec : Sec) (hctx : ctx = src ∨ T ctx) (hrep : report = true → ctx = src ∧ sec = sec0) :
+    Frame T src sec0 st (safeToStanOut st out ctx fb report sec).2 := by
   unfold safeToStanOut
   cases out with
-  | returns s => exact Frame.refl _ _ _
+  | returns s => exact Frame.refl _ _ _ _
   | raises e =>
     simp only []
-    have hfb : Frame obj src st (applyFallback st fb ctx).2 := by
+    have hfb : Frame T src sec0 st (applyFallback st fb ctx).2 := by
       unfold applyFallback
       cases fb with
-      | docstring => simp only []; split <;> exact Frame.refl _ _ _
-      | broken => exact Frame.refl _ _ _
-      | summary =>
-        rcases hctx with h | h <;> subst h
-        · exact frame_setSummary_src _ _ _ _
-        · exact frame_setSummary_obj _ _ _ _
+      | docstring => simp only []; split <;> exact Frame.refl _ _ _ _
+      | broken => exact Frame.refl _ _ _ _
+      | summary => exact frame_setSummary _ _ _ _ _ _ (hctx.symm)
     cases report with
     | false => simpa using hfb
     | true =>
       obtain ⟨h1, h2⟩ := hrep rfl
       subst h1; subst h2
-      simpa using Frame.trans hfb (frame_reportErrors _ _ _ _)
+      simpa using Frame.trans hfb (frame_reportErrors _ _ _ _ _)
 
 theorem frame_formatFields (env : Env) (obj src : Obj) :
-    ∀ (fs : List Field) (st : St), Frame obj src st (formatFields env st src fs).2
-  | [], st => Frame.refl _ _ _
+    ∀ (fs : List Field) (st : St), Frame (Only obj) src 0 st (formatFields env st obj src fs).2
+  | [], st => Frame.refl _ _ _ _
   | f :: fs, st => by
+    have hfmt : ∀ st0 : St, Frame (Only obj) src 0 st0
+        (formatFields env (safeToStanOut st0 (bodyToStan env f.body) src .broken true 0).2 obj src fs).2 :=
+      fun st0 => Frame.trans (frame_safeToStanOut _ src src 0 st0 _ .broken true 0 (.inl rfl) (fun _ => ⟨rfl, rfl⟩))
+        (frame_formatFields env obj src fs _)
     unfold formatFields
-    exact Frame.trans (frame_safeToStanOut obj src src st _ .broken true 0 (.inl rfl) (fun _ => ⟨rfl, rfl⟩))
-      (frame_formatFields env obj src fs _)
+    split
+    · exact frame_formatFields env obj src fs _
+    · split
+      · exact Frame.trans (frame_setPType _ _ _ _ _ _ rfl) (frame_formatFields env obj src fs _)
+      · split
+        · exact hfmt st
+        · exact frame_formatFields env obj src fs _
+    · exact hfmt st
 
 /-! ## every entry point satisfies the frame; totality -/
 
 theorem doc_spec (env : Env) (st : St) (obj : Obj) :
-    Frame obj (sourceOf env st obj) st (formatDocstring env st obj).2 ∧
+    Frame (Only obj) (sourceOf env st obj) 0 st (formatDocstring env st obj).2 ∧
     (formatDocstring env st obj).1.isOk = true := by
   have hf := frame_ensureParsed env st obj
   have hs := ensureParsed_some env st obj
@@ -205,7 +256,7 @@ theorem doc_spec (env : Env) (st : St) (obj : Obj) :
     split
     · rename_i hnone; simp [hnone] at hp
     · exact ⟨Frame.trans hf (Frame.trans
-        (frame_safeToStanOut obj _ _ _ _ .docstring true 0 (.inl rfl) (fun _ => ⟨rfl, rfl⟩))
+        (frame_safeToStanOut _ _ _ 0 _ _ .docstring true 0 (.inl rfl) (fun _ => ⟨rfl, rfl⟩))
         (frame_formatFields env obj _ _ _)), rfl⟩
 
 /-- `ParsedDocstring.get_summary` (base class) never raises, whatever `to_node` and the walk do -/
@@ -216,7 +267,7 @@ theorem base_get_summary_total (env : Env) (pd : PD) : (getSummary env pd).isOk 
   · split <;> rfl
 
 theorem getParsedSummary_spec (env : Env) (st : St) (obj : Obj) :
-    Frame obj (sourceOf env st obj) st (getParsedSummary env st obj).2 ∧
+    Frame (Only obj) (sourceOf env st obj) 0 st (getParsedSummary env st obj).2 ∧
     ∃ source pd, (getParsedSummary env st obj).1 = .ok (source, pd) ∧
       (∀ s, source = some s → s = sourceOf env st obj) := by
   have hf := frame_ensureParsed env st obj
@@ -225,7 +276,7 @@ theorem getParsedSummary_spec (env : Env) (st : St) (obj : Obj) :
   split
   · exact ⟨hf, _, _, rfl, fun s h => (hs s h).2⟩
   · split
-    · exact ⟨Frame.trans hf (frame_setSummary_obj _ _ _ _), _, _, rfl, fun s h => by simp at h⟩
+    · exact ⟨Frame.trans hf (frame_setSummary _ _ _ _ _ _ (.inl rfl)), _, _, rfl, fun s h => by simp at h⟩
     · rename_i src hsrc
       obtain ⟨hp, rfl⟩ := hs src hsrc
       split
@@ -234,10 +285,10 @@ theorem getParsedSummary_spec (env : Env) (st : St) (obj : Obj) :
         have := base_get_summary_total env pd
         split
         · rename_i e he; simp [he, Res.isOk] at this
-        · exact ⟨Frame.trans hf (frame_setSummary_obj _ _ _ _), _, _, rfl, fun s h => by simpa using h.symm⟩
+        · exact ⟨Frame.trans hf (frame_setSummary _ _ _ _ _ _ (.inl rfl)), _, _, rfl, fun s h => by simpa using h.symm⟩
 
 theorem summary_spec (env : Env) (st : St) (obj : Obj) :
-    Frame obj (sourceOf env st obj) st (formatSummary env st obj).2 ∧
+    Frame (Only obj) (sourceOf env st obj) 0 st (formatSummary env st obj).2 ∧
     (formatSummary env st obj).1.isOk = true := by
   obtain ⟨hf, source, pd, he, hsrc⟩ := getParsedSummary_spec env st obj
   unfold formatSummary
@@ -257,7 +308,7 @@ theorem summary_spec (env : Env) (st : St) (obj : Obj) :
 
 /-- `format_toc` returns whatever `get_toc` does (c422501: `try … except Exception: toc = None`) -/
 theorem toc_spec (env : Env) (st : St) (obj : Obj) :
-    Frame obj (sourceOf env st obj) st (formatToc env st obj).2 ∧
+    Frame (Only obj) (sourceOf env st obj) 0 st (formatToc env st obj).2 ∧
     (formatToc env st obj).1.isOk = true := by
   have hf := frame_ensureParsed env st obj
   simp only [formatToc]
@@ -269,7 +320,7 @@ theorem toc_spec (env : Env) (st : St) (obj : Obj) :
       · exact ⟨hf, rfl⟩
       · refine ⟨Frame.trans hf ?_, rfl⟩
         unfold safeToStan
-        exact frame_safeToStanOut _ _ _ _ _ _ _ _ (.inr rfl) (fun h => by cases h)
+        exact frame_safeToStanOut _ _ _ _ _ _ _ _ _ (.inr rfl) (fun h => by cases h)
     · exact ⟨hf, rfl⟩
 
 /-- HISTORICAL (before c422501): the old `format_toc` raised exactly when `get_toc` did -/
@@ -289,13 +340,43 @@ theorem toc_old_spec (env : Env) (st : St) (obj : Obj) :
       · rename_i toc he; simp [Res.isOk, hpd, he]
     · rename_i hd; simp [Res.isOk, hpd]; omega
 
+/-- the attributes `extract_fields` writes to: the arguments of the `ivar/cvar/var/type` fields -/
+def splitTargets : List Field → List Obj
+  | [] => []
+  | f :: fs =>
+    match f.tag, f.arg with
+    | .typ, some a => a :: splitTargets fs
+    | .ivar, some a => a :: splitTargets fs
+    | _, _ => splitTargets fs
+
+theorem frame_splitFields (T : Obj → Prop) (src : Obj) (sec : Sec) :
+    ∀ (fs : List Field) (st : St), (∀ a ∈ splitTargets fs, T a) → Frame T src sec st (splitFields st fs)
+  | [], st, _ => Frame.refl _ _ _ _
+  | f :: fs, st, h => by
+    cases ht : f.tag <;> cases ha : f.arg <;> simp only [splitFields, splitTargets, ht, ha] at h ⊢
+    all_goals first
+      | exact frame_splitFields T src sec fs _ h
+      | exact Frame.trans (frame_setPType _ _ _ _ _ _ (h _ (by simp)))
+          (frame_splitFields T src sec fs _ (fun a ha' => h a (by simp [ha'])))
+      | exact Frame.trans (frame_setParsed _ _ _ _ _ _ (h _ (by simp)))
+          (frame_splitFields T src sec fs _ (fun a ha' => h a (by simp [ha'])))
+
+/-- what `extract_fields` on `obj` may write: `obj` and the attributes its docstring's variable fields name -/
+def extractTouched (env : Env) (st : St) (obj : Obj) : Obj → Prop := fun x =>
+  x = obj ∨ ∃ d, (st.objs obj).docstring = some d ∧ x ∈ splitTargets (pdFields (parseDocstring env st obj d obj).1)
+
 theorem extract_spec (env : Env) (st : St) (obj : Obj) :
-    Frame obj obj st (extractFields env st obj).2 ∧
+    Frame (extractTouched env st obj) obj 0 st (extractFields env st obj).2 ∧
     ((st.objs obj).docstring ≠ none → (extractFields env st obj).1.isOk = true) := by
   unfold extractFields
   split
-  · rename_i h; exact ⟨Frame.refl _ _ _, fun hc => absurd h hc⟩
-  · exact ⟨Frame.trans (frame_parseDocstring env obj obj st _) (frame_setParsed _ _ _ _), fun _ => rfl⟩
+  · rename_i h; exact ⟨Frame.refl _ _ _ _, fun hc => absurd h hc⟩
+  · rename_i d hd
+    refine ⟨?_, fun _ => rfl⟩
+    refine Frame.trans (frame_parseDocstring _ env obj obj st _)
+      (Frame.trans (frame_setParsed _ _ _ _ _ _ (.inl rfl)) (frame_splitFields _ _ _ _ _ ?_))
+    intro a ha
+    exact .inr ⟨d, hd, ha⟩
 
 /-! ## C08 theorems: totality -/
 
@@ -303,9 +384,13 @@ theorem extract_spec (env : Env) (st : St) (obj : Obj) :
 def srcOfOp (env : Env) (st : St) (op : Op) (obj : Obj) : Obj :=
   if op = .extract then obj else sourceOf env st obj
 
+/-- the objects one call may write (only `extract_fields` writes to anything but `obj`) -/
+def touchedOf (env : Env) (st : St) (op : Op) (obj : Obj) : Obj → Prop :=
+  if op = .extract then extractTouched env st obj else Only obj
+
 theorem frame_step (env : Env) (st : St) (op : Op) (obj : Obj) :
-    Frame obj (srcOfOp env st op obj) st (step env st op obj).2 := by
-  cases op <;> simp only [step, srcOfOp] <;> simp
+    Frame (touchedOf env st op obj) (srcOfOp env st op obj) 0 st (step env st op obj).2 := by
+  cases op <;> simp only [step, srcOfOp, touchedOf] <;> simp
   · exact frame_ensureParsed env st obj
   · exact (doc_spec env st obj).1
   · exact (summary_spec env st obj).1
@@ -355,8 +440,14 @@ def envCx : Env where
   mkTyped := fun _ _ => .returns []
   walk := fun _ => .nothing
   buildToc := fun _ _ => .empty
+  isAttribute := fun _ => false
+  annotation := fun _ => none
+  constPd := fun _ => 5
+  sigOut := fun _ => none
+  bases := fun _ => []
+  decorators := fun _ => []
 
-def stCx : St := ⟨fun _ => ⟨some ['x'], none, none⟩, [], [], false⟩
+def stCx : St := ⟨fun _ => ⟨some ['x'], none, none, none⟩, [], [], false⟩
 
 /-- the situation that used to abort (`to_node` raises ValueError) now yields "no table of contents" -/
 example : (formatToc envCx stCx 0).1.isOk = true ∧ (formatDocstring envCx stCx 0).1.isOk = true := by
@@ -464,10 +555,10 @@ example : ∃ env st, (ensureParsed env st 0).1 = some 0 ∧ pdToStan env (.user
     (formatDocstring env st 0).1.isOk = true :=
   ⟨{ envCx with toStan := fun _ => .raises (.other 3) }, stCx, by decide, by decide, by decide⟩
 
-theorem formatFields_reports_prefix (env : Env) (src : Obj) (fs : List Field) (st : St) :
-    (∀ p ∈ st.errors, p ∈ (formatFields env st src fs).2.errors) ∧
-    ∀ r ∈ st.reports, r ∈ (formatFields env st src fs).2.reports := by
-  have hf := frame_formatFields env src src fs st
+theorem formatFields_reports_prefix (env : Env) (obj src : Obj) (fs : List Field) (st : St) :
+    (∀ p ∈ st.errors, p ∈ (formatFields env st obj src fs).2.errors) ∧
+    ∀ r ∈ st.reports, r ∈ (formatFields env st obj src fs).2.reports := by
+  have hf := frame_formatFields env obj src fs st
   refine ⟨hf.errors_mono, ?_⟩
   obtain ⟨new, e, _⟩ := hf.reports
   intro r hr; rw [e]; exact List.mem_append_left _ hr
@@ -527,7 +618,7 @@ the body of object 1 is object 0's text and the report names object 0 -/
 example :
     bodyOf (formatDocstring { envCx with inherited := fun o => if o = 1 then [0] else [],
                                          toStan := fun _ => .raises (.other 3) }
-              ⟨fun o => if o = 0 then ⟨some ['x', 'y'], none, none⟩ else ⟨none, none, none⟩, [], [], false⟩ 1).1
+              ⟨fun o => if o = 0 then ⟨some ['x', 'y'], none, none, none⟩ else ⟨none, none, none, none⟩, [], [], false⟩ 1).1
       = some (.pre ['x', 'y']) := by decide
 
 /-- … and that failure is reported against the source object, provided the object was not already
@@ -544,7 +635,7 @@ theorem render_failure_reported (env : Env) (st : St) (obj src : Obj) (pd : PD) 
     intro st0; unfold applyFallback; simp only []; split <;> rfl
   rw [hfb]
   obtain ⟨e1, e2⟩ := reportErrors_fresh _ src [toStanError e] 0 (by simp) hn
-  obtain ⟨m1, m2⟩ := formatFields_reports_prefix env src (pdFields pd)
+  obtain ⟨m1, m2⟩ := formatFields_reports_prefix env obj src (pdFields pd)
     (reportErrors (ensureParsed env st obj).2 src [toStanError e] 0)
   refine ⟨m1 _ (by rw [e1]; simp), m2 _ ?_⟩
   rw [e2]; simp [toStanError, Err.offset, Err.linenum]
@@ -602,10 +693,12 @@ theorem reported_once (env : Env) (st : St) (op : Op) (obj : Obj) (sec : Sec) (o
   rw [this, List.append_nil]
 
 /-- `Docstring.isolation`: one call on `obj` (whose docstring comes from `src`) changes nothing about
-any other object `B`: not its docstring, parsed form or summary, not its reports, not whether it
-counts as reported.  (For `B = src ≠ obj` see `isolation_source`.) -/
+any other object `B`: not its docstring, parsed form, summary or parsed type, not its reports, not
+whether it counts as reported.  "Other" = not `obj` (`touchedOf`; for `extract_fields` also not one of
+the attributes named by the variable fields of `obj`'s docstring, whose documentation it IS) and not
+the source.  (For `B = src ≠ obj` see `isolation_source`.) -/
 theorem isolation (env : Env) (st : St) (op : Op) (obj B : Obj)
-    (hB : B ≠ obj) (hS : B ≠ srcOfOp env st op obj) :
+    (hB : ¬ touchedOf env st op obj B) (hS : B ≠ srcOfOp env st op obj) :
     (step env st op obj).2.objs B = st.objs B ∧
     (∀ sec, reportsOf (step env st op obj).2 sec B = reportsOf st sec B) ∧
     (∀ sec, (sec, B) ∈ (step env st op obj).2.errors ↔ (sec, B) ∈ st.errors) := by
@@ -614,6 +707,7 @@ theorem isolation (env : Env) (st : St) (op : Op) (obj B : Obj)
   · have h1 := hf.docstring B
     have h2 := hf.parsed B hB
     have h3 := hf.summary B hB hS
+    have h4 := hf.ptype B hB
     cases hx : (step env st op obj).2.objs B
     cases hy : st.objs B
     simp_all
@@ -634,9 +728,14 @@ theorem isolation (env : Env) (st : St) (op : Op) (obj B : Obj)
     · exact h'
     · exact absurd (by simpa using (congrArg Prod.snd h')) hS
 
+/-- for every entry point but `extract_fields`, "touched" is just `obj` -/
+theorem touchedOf_ne (env : Env) (st : St) (op : Op) (obj B : Obj) (hop : op ≠ .extract) (hB : B ≠ obj) :
+    ¬ touchedOf env st op obj B := by
+  simp [touchedOf, hop, Only, hB]
+
 /-- the object the docstring was inherited from keeps its docstring and parsed form; it receives the
 reports (it is its docstring), and only its cached summary can be overwritten -/
-theorem isolation_source (env : Env) (st : St) (op : Op) (obj B : Obj) (hB : B ≠ obj) :
+theorem isolation_source (env : Env) (st : St) (op : Op) (obj B : Obj) (hB : ¬ touchedOf env st op obj B) :
     ((step env st op obj).2.objs B).docstring = (st.objs B).docstring ∧
     ((step env st op obj).2.objs B).parsed = (st.objs B).parsed :=
   ⟨(frame_step env st op obj).docstring B, (frame_step env st op obj).parsed B hB⟩
@@ -648,7 +747,7 @@ def envInherit : Env :=
                walk := fun _ => .summary 2,
                toStan := fun k => if k = 2 then .raises (.other 3) else .returns (.opaque k) }
 
-def stInherit : St := ⟨fun o => if o = 0 then ⟨some ['x'], none, none⟩ else ⟨none, none, none⟩, [], [], false⟩
+def stInherit : St := ⟨fun o => if o = 0 then ⟨some ['x'], none, none, none⟩ else ⟨none, none, none, none⟩, [], [], false⟩
 
 /-- the one cross-object effect the code has: a failing summary of an INHERITED docstring marks the
 summary of the object it was inherited from as broken (`format_summary_fallback` writes to `ctx`,
@@ -677,28 +776,62 @@ theorem ensureParsed_stable (env : Env) (st st2 : St) (obj : Obj)
   cases hgd : getDocstring st (obj :: env.inherited obj) <;> cases hpp : (st.objs obj).parsed <;>
     simp only [ensureParsed, hg, hgd, hpp] <;> intro hp <;> simp_all
 
-/-- a state transformer that only ever files reports against `(0, src)` through `reportErrors` -/
-structure Rep (src : Obj) (f : St → St) : Prop where
-  fresh : ∀ st, f st = st ∨ (0, src) ∈ (f st).errors
-  noop : ∀ st, (0, src) ∈ st.errors → f st = st
+theorem reportErrors_congr (a b : St) (o : Obj) (errs : List Err) (sec : Sec)
+    (he : a.errors = b.errors) (hr : a.reports = b.reports) :
+    (reportErrors a o errs sec).errors = (reportErrors b o errs sec).errors ∧
+    (reportErrors a o errs sec).reports = (reportErrors b o errs sec).reports := by
+  unfold reportErrors
+  rw [he]
+  split
+  · exact ⟨he, hr⟩
+  · split
+    · exact ⟨he, hr⟩
+    · simp [hr]
 
-theorem Rep.idem {src : Obj} {f : St → St} (h : Rep src f) (st : St) : f (f st) = f st := by
+/-- two states with the same log (reported set and report list) -/
+def RE (a b : St) : Prop := a.errors = b.errors ∧ a.reports = b.reports
+
+theorem RE.rfl' (a : St) : RE a a := ⟨rfl, rfl⟩
+theorem RE.trans' {a b c : St} (h1 : RE a b) (h2 : RE b c) : RE a c := ⟨h1.1.trans h2.1, h1.2.trans h2.2⟩
+
+/-- a state transformer that files reports only against `(0, src)` through `reportErrors`, never
+touches docstrings or parsed docstrings, and whose effect on the log depends on the log only -/
+structure Rep (src : Obj) (f : St → St) : Prop where
+  fresh : ∀ st, RE (f st) st ∨ (0, src) ∈ (f st).errors
+  noop : ∀ st, (0, src) ∈ st.errors → RE (f st) st
+  congr : ∀ a b, RE a b → RE (f a) (f b)
+  keeps : ∀ st x, ((f st).objs x).docstring = (st.objs x).docstring ∧ ((f st).objs x).parsed = (st.objs x).parsed
+
+theorem Rep.idem {src : Obj} {f : St → St} (h : Rep src f) (st : St) : RE (f (f st)) (f st) := by
   rcases h.fresh st with h1 | h1
-  · rw [h1, h1]
+  · exact h.congr _ _ h1
   · exact h.noop _ h1
 
 theorem Rep.comp {src : Obj} {f g : St → St} (hf : Rep src f) (hg : Rep src g) : Rep src (fun st => g (f st)) := by
-  refine ⟨fun st => ?_, fun st h => ?_⟩
+  refine ⟨fun st => ?_, fun st h => ?_, fun a b h => hg.congr _ _ (hf.congr _ _ h), fun st x => ?_⟩
   · rcases hf.fresh st with h1 | h1
-    · simp only [h1]; exact hg.fresh st
-    · right; simp only [hg.noop _ h1]; exact h1
-  · simp only [hf.noop _ h, hg.noop _ h]
+    · have h2 := hg.congr _ _ h1
+      rcases hg.fresh st with h3 | h3
+      · exact .inl (h2.trans' h3)
+      · right; show (0, src) ∈ (g (f st)).errors; rw [h2.1]; exact h3
+    · right; show (0, src) ∈ (g (f st)).errors; rw [(hg.noop _ h1).1]; exact h1
+  · have h1 := hf.noop _ h
+    have h2 : (0, src) ∈ (f st).errors := by rw [h1.1]; exact h
+    exact (hg.noop _ h2).trans' h1
+  · exact ⟨((hg.keeps _ x).1).trans ((hf.keeps _ x).1), ((hg.keeps _ x).2).trans ((hf.keeps _ x).2)⟩
+
+theorem rep_id (src : Obj) : Rep src (fun st => st) :=
+  ⟨fun st => .inl (RE.rfl' _), fun st _ => RE.rfl' _, fun _ _ h => h, fun _ _ => ⟨rfl, rfl⟩⟩
 
 theorem rep_reportErrors (src : Obj) (errs : List Err) : Rep src (fun st => reportErrors st src errs 0) := by
-  refine ⟨fun st => ?_, fun st h => reportErrors_noop _ _ _ _ h⟩
+  refine ⟨fun st => ?_, fun st h => by rw [reportErrors_noop _ _ _ _ h]; exact RE.rfl' _,
+          fun a b h => reportErrors_congr a b src errs 0 h.1 h.2, fun st x => by simp⟩
   by_cases he : errs = []
-  · left; rw [he]; exact reportErrors_nil _ _ _
+  · left; rw [he, reportErrors_nil]; exact RE.rfl' _
   · right; exact reportErrors_mem _ _ _ _ he
+
+theorem rep_setPType (src o : Obj) (b : Body) : Rep src (fun st => setPType st o b) :=
+  ⟨fun st => .inl ⟨rfl, rfl⟩, fun st _ => ⟨rfl, rfl⟩, fun _ _ h => h, fun st x => by simp⟩
 
 theorem rep_safeToStanOut (src : Obj) (out : StanOut) (fb : Fallback) (hfb : fb ≠ .summary) :
     Rep src (fun st => (safeToStanOut st out src fb true 0).2) := by
@@ -709,16 +842,27 @@ theorem rep_safeToStanOut (src : Obj) (out : StanOut) (fb : Fallback) (hfb : fb 
     | broken => rfl
     | summary => exact absurd rfl hfb
   cases out with
-  | returns s => exact ⟨fun st => .inl rfl, fun st _ => rfl⟩
+  | returns s => exact rep_id src
   | raises e =>
     simp only [safeToStanOut, hfb', if_true]
     exact rep_reportErrors src _
 
-theorem rep_formatFields (env : Env) (src : Obj) : ∀ fs : List Field, Rep src (fun st => (formatFields env st src fs).2)
-  | [] => ⟨fun st => .inl rfl, fun st _ => rfl⟩
+theorem rep_formatFields (env : Env) (obj src : Obj) :
+    ∀ fs : List Field, Rep src (fun st => (formatFields env st obj src fs).2)
+  | [] => rep_id src
   | f :: fs => by
-    have h := Rep.comp (rep_safeToStanOut src (bodyToStan env f.body) .broken (by decide)) (rep_formatFields env src fs)
-    simpa [formatFields] using h
+    have ih := rep_formatFields env obj src fs
+    have hfmt := Rep.comp (rep_safeToStanOut src (bodyToStan env f.body) .broken (by decide)) ih
+    have hset := Rep.comp (rep_setPType src obj f.body) ih
+    cases ht : f.tag
+    · simpa [formatFields, ht] using hfmt
+    · simpa [formatFields, ht] using hfmt
+    · by_cases ha : env.isAttribute obj = true
+      · simpa [formatFields, ht, ha] using hset
+      · by_cases hg : f.arg.isSome = true
+        · simpa [formatFields, ht, ha, hg] using hfmt
+        · simpa [formatFields, ht, ha, hg] using ih
+    · simpa [formatFields, ht] using ih
 
 theorem safeToStanOut_noreport (st : St) (out : StanOut) (ctx : Obj) (fb : Fallback) (sec : Sec) :
     (safeToStanOut st out ctx fb false sec).2.reports = st.reports ∧
@@ -737,40 +881,23 @@ theorem safeToStanOut_noreport (st : St) (out : StanOut) (ctx : Obj) (fb : Fallb
       simp only [safeToStanOut, applyFallback]
       exact ⟨rfl, rfl, fun _ => by simp, fun _ => by simp⟩
 
-theorem formatFields_objs (env : Env) (src : Obj) : ∀ (fs : List Field) (st : St),
-    (formatFields env st src fs).2.objs = st.objs
-  | [], st => rfl
-  | f :: fs, st => by
-    simp only [formatFields, formatFields_objs env src fs]
-    cases bodyToStan env f.body <;> simp [safeToStanOut, applyFallback]
-
-theorem safeToStanOut_docstring_objs (st : St) (out : StanOut) (src : Obj) :
-    (safeToStanOut st out src .docstring true 0).2.objs = st.objs := by
-  cases out with
-  | returns s => rfl
-  | raises e =>
-    simp only [safeToStanOut, applyFallback, if_true, reportErrors_objs]
-    cases (st.objs src).docstring <;> rfl
-
 /-- body-then-fields part of `format_docstring` as a state transformer -/
-def docTail (env : Env) (pd : PD) (src : Obj) (st : St) : St :=
-  (formatFields env (safeToStanOut st (pdToStan env pd) src .docstring true 0).2 src (pdFields pd)).2
+def docTail (env : Env) (pd : PD) (obj src : Obj) (st : St) : St :=
+  (formatFields env (safeToStanOut st (pdToStan env pd) src .docstring true 0).2 obj src (pdFields pd)).2
 
-theorem rep_docTail (env : Env) (pd : PD) (src : Obj) : Rep src (docTail env pd src) := by
+theorem rep_docTail (env : Env) (pd : PD) (obj src : Obj) : Rep src (docTail env pd obj src) := by
   have h := Rep.comp (rep_safeToStanOut src (pdToStan env pd) .docstring (by decide))
-    (rep_formatFields env src (pdFields pd))
+    (rep_formatFields env obj src (pdFields pd))
   exact h
-
-theorem docTail_objs (env : Env) (pd : PD) (src : Obj) (st : St) : (docTail env pd src st).objs = st.objs := by
-  simp [docTail, formatFields_objs, safeToStanOut_docstring_objs]
 
 theorem formatDocstring_of (env : Env) (st st1 : St) (obj src : Obj) (pd : PD)
     (h : ensureParsed env st obj = (some src, st1)) (hpd : (st1.objs obj).parsed = some pd) :
-    (formatDocstring env st obj).2 = docTail env pd src st1 := by
+    (formatDocstring env st obj).2 = docTail env pd obj src st1 := by
   simp only [formatDocstring, h, hpd, docTail, safeToStan]
 
+/-- a second `format_docstring` on the same object leaves the log as the first one left it -/
 theorem doc_second_call (env : Env) (st : St) (obj : Obj) :
-    (formatDocstring env (formatDocstring env st obj).2 obj).2 = (formatDocstring env st obj).2 := by
+    RE (formatDocstring env (formatDocstring env st obj).2 obj).2 (formatDocstring env st obj).2 := by
   have hd := (doc_spec env st obj).1.docstring
   cases hsrc : (ensureParsed env st obj).1 with
   | none =>
@@ -780,19 +907,20 @@ theorem doc_second_call (env : Env) (st : St) (obj : Obj) :
       (fun x => ensureParsed_docstring env st obj x) rfl
     rw [h1]
     simp only [formatDocstring, h2, hsrc]
+    exact RE.rfl' _
   | some src =>
     obtain ⟨hp, _⟩ := ensureParsed_some env st obj src hsrc
     cases hpd : ((ensureParsed env st obj).2.objs obj).parsed with
     | none => simp [hpd] at hp
     | some pd =>
       have h1 := formatDocstring_of env st (ensureParsed env st obj).2 obj src pd (by rw [← hsrc]) hpd
-      have hobjs := docTail_objs env pd src (ensureParsed env st obj).2
-      have h2 := ensureParsed_stable env st (formatDocstring env st obj).2 obj hd (by rw [h1, hobjs])
+      have hk := (rep_docTail env pd obj src).keeps (ensureParsed env st obj).2
+      have h2 := ensureParsed_stable env st (formatDocstring env st obj).2 obj hd (by rw [h1, (hk obj).2])
       rw [hsrc] at h2
       have h3 := formatDocstring_of env (formatDocstring env st obj).2 (formatDocstring env st obj).2 obj src pd h2
-        (by rw [h1, hobjs]; exact hpd)
+        (by rw [h1, (hk obj).2]; exact hpd)
       rw [h3, h1]
-      exact (rep_docTail env pd src).idem _
+      exact (rep_docTail env pd obj src).idem _
 
 theorem getParsedSummary_state (env : Env) (st : St) (obj : Obj) :
     (getParsedSummary env st obj).2 = (ensureParsed env st obj).2 ∨
@@ -842,18 +970,6 @@ theorem formatToc_tail (env : Env) (st : St) (obj : Obj) :
         exact ⟨a, b, d⟩
     · exact ⟨rfl, rfl, fun _ => rfl⟩
 
-theorem reportErrors_congr (a b : St) (o : Obj) (errs : List Err) (sec : Sec)
-    (he : a.errors = b.errors) (hr : a.reports = b.reports) :
-    (reportErrors a o errs sec).errors = (reportErrors b o errs sec).errors ∧
-    (reportErrors a o errs sec).reports = (reportErrors b o errs sec).reports := by
-  unfold reportErrors
-  rw [he]
-  split
-  · exact ⟨he, hr⟩
-  · split
-    · exact ⟨he, hr⟩
-    · simp [hr]
-
 theorem extractFields_of (env : Env) (s : St) (obj : Obj) (d : Text) (hd : (s.objs obj).docstring = some d) :
     (extractFields env s obj).2 =
       setParsed (parseDocstring env s obj d obj).2 obj (parseDocstring env s obj d obj).1 := by
@@ -871,7 +987,7 @@ theorem second_call_silent (env : Env) (st : St) (op : Op) (obj : Obj) :
       (fun x => ensureParsed_docstring env st obj x) rfl
     rw [h]; exact ⟨rfl, rfl⟩
   · -- doc
-    rw [doc_second_call]; exact ⟨rfl, rfl⟩
+    exact ⟨(doc_second_call env st obj).2, (doc_second_call env st obj).1⟩
   · -- summary
     obtain ⟨a, b, c⟩ := formatSummary_tail env st obj
     obtain ⟨a2, b2, _⟩ := formatSummary_tail env (formatSummary env st obj).2 obj
